@@ -94,6 +94,7 @@ func runC12(r *harness.Run) {
 		r.NotExhaustive("deadline before part 3")
 	}
 	c12ProgramFamilies(r)
+	c12ErrDeeper(r)
 	runPinned(r, "C12")
 	pinnedGoCallByParam(r)
 	overflowHistory(r)
